@@ -59,13 +59,13 @@ func countTxs(t *Trace) int {
 }
 
 // replayTrace executes a trace and returns the sim.
-func replayTrace(t *Trace) (*Sim, error) {
+func replayTrace(t *Trace, stopClass string) (*Sim, error) {
 	cfg := t.Cfg
-	// replays always carry the replica when the trace has node faults
 	s, err := NewSim(t.Seed, cfg, cloneTrace(t))
 	if err != nil {
 		return nil, err
 	}
+	s.StopClass = stopClass
 	s.Run()
 	return s, nil
 }
@@ -85,7 +85,7 @@ func writeReplayUnminimised(tracePath string, v Violation, out string) error {
 	if err != nil {
 		return err
 	}
-	s, err := replayTrace(t)
+	s, err := replayTrace(t, v.Class())
 	if err != nil {
 		return err
 	}
@@ -108,7 +108,7 @@ func minimizeAndWrite(tracePath string, v Violation, out string, budget time.Dur
 	execs := 0
 	test := func(c *Trace) bool {
 		execs++
-		s, err := replayTrace(c)
+		s, err := replayTrace(c, v.Class())
 		if err != nil || s.HarnessErr != "" {
 			return false
 		}
@@ -223,7 +223,7 @@ func minimizeAndWrite(tracePath string, v Violation, out string, budget time.Dur
 			}
 		}
 	}
-	s, err := replayTrace(cur)
+	s, err := replayTrace(cur, v.Class())
 	if err != nil {
 		return err
 	}
@@ -254,7 +254,7 @@ func cmdReplay(args []string) {
 		os.Exit(2)
 	}
 	rf.Trace.Cfg.Verbose = len(args) > 1 && args[1] == "-v"
-	s, err := replayTrace(rf.Trace)
+	s, err := replayTrace(rf.Trace, rf.Violation.Class())
 	if err != nil {
 		fmt.Fprintln(os.Stderr, "replay boot:", err)
 		os.Exit(2)
